@@ -237,6 +237,7 @@ class Scheduler:
         self.deadlock_info = None
         self.line_mode = False
         self.capture_dump = False
+        self.on_root_done = None
         self.abort_dump = None
         self.yield_on_release = False  # a release is followed by the releaser's next yield point anyway
         if cf_thread is not None:
@@ -413,6 +414,8 @@ class Scheduler:
         t.state = "done"
         if t is self.root and not self.aborting:
             # the handler returned: freeze whatever is still alive (Lambda freezes the sandbox)
+            if self.on_root_done is not None:
+                self.on_root_done(self)
             self._abort("end")
         nxt = self._pick(None)
         if nxt is None:
